@@ -394,3 +394,74 @@ def shrink_variants(case):
         sub["faults"] = v["faults"]
         sub["tasks"] = [dict(t, data=v["data"]) if t["id"] == "main" else t for t in case["tasks"]]
         yield sub
+
+
+def shrink_buffers(case, ids=("main",)):
+    """input minimisation: empty one byte buffer of the well-formed original at a time (largest first), fix the
+    enclosing size fields, and re-apply the in-place faults by *path*"""
+    inp = case.get("input") or {}
+    orig = inp.get("orig")
+    faults = case.get("faults") or []
+    if orig is None:
+        main = next((t for t in case["tasks"] if t["id"] in ids), None)
+        if main is None or faults:
+            return
+        orig = main["data"]
+    if not all(f.get("kind") in PUT_KINDS and "new" in f and "path" in f for f in faults):
+        return
+    root = inp.get("root")
+    if root is None:
+        return
+    L = layout()
+    data = bytes.fromhex(orig)
+    o = model.decode(root, data, cc=inp.get("cc"), enc=inp.get("enc"))
+    if not o.ok:
+        return
+    size_item = {ri: idx for idx, ri in o.sizefields}
+    cands = []
+    for idx, ri in o.sizefields:
+        r = o.regions[ri]
+        if r.kind != "tpm2b" or not r.max or idx + 1 >= len(o.items):
+            continue
+        nxt = o.items[idx + 1]
+        if nxt[0] == "S" and nxt[2] == "list[BYTE]":
+            cands.append((r.max, idx, ri))
+    for n, idx, ri in sorted(cands, reverse=True)[:6]:
+        r = o.regions[ri]
+        b = bytearray(data)
+        # enclosing regions shrink by n, the buffer's own size becomes 0
+        ok = True
+        for rj, e in enumerate(o.regions):
+            if e is r or e.max is None or not (e.start <= r.start and r.start + r.max <= e.start + e.max) or rj not in size_item:
+                continue
+            it = o.items[size_item[rj]]
+            t = L.types[it[2]]
+            b[it[4]:it[4] + t["size"]] = (it[3] - n).to_bytes(t["size"], "big")
+        it = o.items[idx]
+        b[it[4]:it[4] + it[5]] = (0).to_bytes(it[5], "big")
+        new = bytes(b[:r.start] + b[r.start + n:])
+        o2 = model.decode(root, new, cc=inp.get("cc"), enc=inp.get("enc"))
+        if not o2.ok:
+            continue
+        d2 = bytearray(new)
+        recs = []
+        for f in faults:
+            j = next((k for k, x in enumerate(o2.items) if x[0] == "P" and x[1] == f["path"] and x[2] == f["type"]), None)
+            if j is None:
+                ok = False
+                break
+            x = o2.items[j]
+            t = L.types[x[2]]
+            try:
+                d2[x[4]:x[4] + t["size"]] = int(f["new"]).to_bytes(t["size"], "big", signed=t["signed"])
+            except OverflowError:
+                ok = False
+                break
+            recs.append(dict(f, off=x[4], item=j))
+        if not ok:
+            continue
+        c = dict(case)
+        c["input"] = dict(inp, orig=new.hex())
+        c["faults"] = recs
+        c["tasks"] = [dict(t, data=bytes(d2).hex()) if t["id"] in ids else t for t in case["tasks"]]
+        yield c
